@@ -104,7 +104,7 @@ def shapes_ok(case, res):
 def main(tier, seed, replay=None):
     run = Run("C10", tier, seed, "proof")
     rng = random.Random(seed)
-    proof_obligations(run, "C10")
+    proof_obligations(run, "C10", extra_pins=("E2E",))
     binp = build_harness("dev")
     workdir = os.path.join(COQ, "run", "C10")
     n = 160 if tier == "quick" else 2500
